@@ -16,7 +16,7 @@ PROP = "C18"
 MAX_STEPS = 80
 
 RAISES = ("app-error", "app-error-kwargs", "decorated", "defined", "undefined", "picky", "kwonly", "with-kwargs-attr", "app-error-noargs",
-          "on-cancel")
+          "on-cancel", "app-error-same-instance")
 
 
 class DefinedError(Exception):
@@ -85,6 +85,7 @@ class World(DuoWorld):
         self.calls = []
         self.by_tok = {}
         self.by_call_id = {}
+        self.kept_error = None
         self.pending_forward = []  # ERRORs from the callee not yet forwarded to the caller
         self.interruptible = []  # invocations whose endpoint is pending and fails with its own error when cancelled
         self.ops_left = 0
@@ -199,6 +200,13 @@ class World(DuoWorld):
             raise ApplicationError("com.example.carried.%s" % tok, *a, reason="why", n=3)
         if k == "app-error-noargs":
             raise ApplicationError("com.example.defined")
+        if k == "app-error-same-instance":
+            # the application keeps one exception object and raises it whenever the condition recurs
+            if self.kept_error is None:
+                self.kept_error = ApplicationError("com.example.overloaded", "try later", code=503, retry_after=5)
+            else:
+                self.run.probe("same-exception-instance-raised-again")
+            raise self.kept_error
         if k == "decorated":
             raise Dec(*a)
         if k == "defined":
@@ -244,6 +252,8 @@ class World(DuoWorld):
             return "com.example.carried.%s" % rec.tok, a, {"reason": "why", "n": 3}
         if k == "app-error-noargs":
             return "com.example.defined", [], {}
+        if k == "app-error-same-instance":
+            return "com.example.overloaded", ["try later"], {"code": 503, "retry_after": 5}
         if k == "on-cancel":
             return "com.example.carried.%s.cancelled" % rec.tok, a, {"reason": "cancelled"}
         cls, args, kw = {"decorated": (Dec, a, {}), "defined": (DefinedError, a, {}), "undefined": (UndefinedError, a, {}),
